@@ -4,19 +4,21 @@
    regenerated SlskGen.CharTable.  Paths are lists of components (each a list of characters),
    relative to a root the harness chooses.
 
-   Python objects with identity are modelled explicitly:
-   * a SharedDirectory object is a [dobj] with a unique [did]; objects that were removed from the
-     manager but are still referenced (by items that point at them) live on in [zombies];
+   This is the model of the REPAIRED code (fixes F04 F05 F27):
+   * a SharedDirectory object is a [dobj] with a unique [did];
    * a SharedItem is an [item]; its [oid] is the identity of the SharedDirectory object it points
      at (item.shared_directory) and [opath] that object's (immutable) path.  Python equality/hash of
      items (dataclass eq over shared_directory, subdir, filename, modified) is [item_eq]; object
-     identity is [item_same].
+     identity is [item_same].  Items that move between nested shared directories are re-created
+     for their new directory ([rehome], SharesManager._move_items);
    * the term map (word -> WeakSet of items) is [keys] (the dict keys, possibly stale) plus
      [indexed] (the union of the weak sets: items added to the map and still alive); the set stored
      under word w is { x in indexed | w in words of x }.
-   Garbage collection: the model assumes a collection after every operation ([prune]); an item is
-   alive iff a reachable directory object holds it, a directory object is reachable iff it is
-   listed or an alive item points at it. *)
+   Liveness: an item leaves the weak sets when no listed directory holds it any more ([prune]):
+   items dropped by a scan or replaced by a move are only referenced by the set they are removed
+   from (reference counting frees them at once); remove_shared_directory and load_from_settings
+   rebuild the map from the listed directories, so the removed directory <-> items cycle that only
+   the cyclic collector frees is not in the map. *)
 From Coq Require Import NArith List Bool Arith.
 From SlskGen Require Import CharTable.
 Import ListNotations.
@@ -108,7 +110,9 @@ Record dobj := mkDir { did : nat; dpath : path; dalias : str; dmode : mode; duse
 Definition item_eq (x y : item) : bool :=
   eqb_path (opath x) (opath y) && eqb_path (isub x) (isub y) && eqb_str (iname x) (iname y) && N.eqb (imtime x) (imtime y).
 Definition item_same (x y : item) : bool := Nat.eqb (oid x) (oid y) && item_eq x y.
-Definition abs_path (x : item) : path := opath x ++ isub x ++ [iname x].
+(* the directory the file is in, and the file itself, as absolute component paths *)
+Definition dir_of (x : item) : path := opath x ++ isub x.
+Definition abs_path (x : item) : path := dir_of x ++ [iname x].
 
 Fixpoint join_bs (cs : path) : str :=
   match cs with
@@ -127,8 +131,8 @@ Definition remote_path (alias : str) (x : item) : str := AT :: AT :: join_bs (al
 Definition set_items (d : dobj) (its : list item) : dobj := mkDir (did d) (dpath d) (dalias d) (dmode d) (dusers d) its.
 Definition set_share (d : dobj) (m : mode) (us : list str) : dobj := mkDir (did d) (dpath d) (dalias d) m us (ditems d).
 
-Record state := mkState { listed : list dobj; zombies : list dobj; keys : list str; indexed : list item; next_id : nat }.
-Definition init : state := mkState [] [] [] [] 0.
+Record state := mkState { listed : list dobj; keys : list str; indexed : list item; next_id : nat }.
+Definition init : state := mkState [] [] [] 0.
 
 Definition find_listed (p : path) (ds : list dobj) : option dobj := find (fun d => eqb_path (dpath d) p) ds.
 
@@ -150,39 +154,23 @@ Fixpoint best_parent (p : path) (ds : list dobj) (best : option dobj) : option d
 Definition replace_dir (nd : dobj) (ds : list dobj) : list dobj :=
   map (fun d => if eqb_path (dpath d) (dpath nd) then nd else d) ds.
 
-(* set union of Python sets of items ("a |= b"): elements of a are kept, b's added when not equal to one present *)
+(* Python set.add / "|=": an element is added unless an equal one is present *)
 Fixpoint union_eq (a b : list item) : list item :=
   match b with
   | [] => a
   | x :: b' => let a' := union_eq a b' in if existsb (item_eq x) a' then a' else a' ++ [x]
   end.
 
-(* ---------------------------------------------------------------- liveness (collection after every operation) *)
+(* SharesManager._move_items: the item is re-created for the directory that takes it over
+   (owner pointer, and subdir relative to it) *)
+Definition rehome (t : dobj) (x : item) : item :=
+  mkItem (did t) (dpath t) (skipn (length (dpath t)) (dir_of x)) (iname x) (imtime x).
 
-Definition mem_nat (n : nat) (l : list nat) : bool := existsb (Nat.eqb n) l.
-Definition all_objs (s : state) : list dobj := listed s ++ zombies s.
-Definition reach_step (objs : list dobj) (r : list nat) : list nat :=
-  fold_left (fun acc d => if mem_nat (did d) r
-                          then fold_left (fun a x => if mem_nat (oid x) a then a else a ++ [oid x]) (ditems d) acc
-                          else acc) objs r.
-Fixpoint iter {A} (n : nat) (f : A -> A) (a : A) : A := match n with O => a | S k => iter k f (f a) end.
-Definition reachable (s : state) : list nat :=
-  iter (S (length (zombies s))) (reach_step (all_objs s)) (map did (listed s)).
+(* ---------------------------------------------------------------- liveness *)
+
 Definition held_by (ds : list dobj) (x : item) : bool := existsb (fun d => existsb (item_same x) (ditems d)) ds.
 Definition prune (s : state) : state :=
-  let r := reachable s in
-  let z := filter (fun d => mem_nat (did d) r) (zombies s) in
-  mkState (listed s) z (keys s) (filter (held_by (listed s ++ z)) (indexed s)) (next_id s).
-
-(* what reference counting alone frees in the middle of an operation (before the next collection): an item no
-   object holds any more; a removed directory object that no held item points at (then the items only it held).
-   A removed directory that still holds items of its own keeps itself alive (reference cycle) until [prune]. *)
-Definition pointed (objs : list dobj) (z : dobj) : bool :=
-  existsb (fun d => existsb (fun x => Nat.eqb (oid x) (did z)) (ditems d)) objs.
-Definition rc_step (ls zs : list dobj) : list dobj := filter (pointed (ls ++ zs)) zs.
-Definition rc_prune (s : state) : state :=
-  let z := iter (S (length (zombies s))) (rc_step (listed s)) (zombies s) in
-  mkState (listed s) z (keys s) (filter (held_by (listed s ++ z)) (indexed s)) (next_id s).
+  mkState (listed s) (keys s) (filter (held_by (listed s)) (indexed s)) (next_id s).
 
 (* ---------------------------------------------------------------- term map *)
 
@@ -190,14 +178,17 @@ Definition add_keys (ws : list str) (ks : list str) : list str :=
   fold_left (fun k w => if mem_str w k then k else k ++ [w]) ws ks.
 (* _add_item_to_term_map: WeakSet.add is a no-op when an equal item is present *)
 Definition index_item (s : state) (x : item) : state :=
-  mkState (listed s) (zombies s) (add_keys (item_words x) (keys s))
+  mkState (listed s) (add_keys (item_words x) (keys s))
           (if existsb (item_eq x) (indexed s) then indexed s else indexed s ++ [x]) (next_id s).
 Definition build_term_map (s : state) (its : list item) : state := fold_left index_item its s.
 (* _cleanup_term_map: drop the words whose weak set is empty *)
 Definition cleanup (s : state) : state :=
-  mkState (listed s) (zombies s)
+  mkState (listed s)
           (filter (fun k => existsb (fun x => mem_str k (item_words x)) (indexed s)) (keys s))
           (indexed s) (next_id s).
+(* rebuild_term_map *)
+Definition rebuild (s : state) : state :=
+  fold_left (fun st d => build_term_map st (ditems d)) (listed s) (mkState (listed s) [] [] (next_id s)).
 
 (* ---------------------------------------------------------------- operations *)
 
@@ -210,9 +201,11 @@ Inductive op :=
 | Scan (p : path) (disk : list file)
 | LoadSettings (entries : list (path * str * mode * list str)).
 
-Definition under (p : path) (x : item) : bool := path_prefix p (abs_path x).
+(* the file lies in directory p or below (SharedDirectory.get_items_for_directory; a shared directory whose
+   path equals the path of a FILE is not modelled) *)
+Definition under (p : path) (x : item) : bool := path_prefix p (dir_of x).
 
-(* add_shared_directory, without the final collection *)
+(* add_shared_directory, without the final release of the replaced items *)
 Definition add_raw (s : state) (p : path) (alias : str) (m : mode) (us : list str) : state :=
   match find_listed p (listed s) with
   | Some _ => s
@@ -220,11 +213,12 @@ Definition add_raw (s : state) (p : path) (alias : str) (m : mode) (us : list st
       let nid := next_id s in
       match best_parent p (listed s) None with
       | Some par =>
-          let moved := filter (under p) (ditems par) in
+          let nd0 := mkDir nid p alias m us [] in
+          let moved := union_eq [] (map (rehome nd0) (filter (under p) (ditems par))) in
           let par' := set_items par (filter (fun x => negb (under p x)) (ditems par)) in
-          mkState (replace_dir par' (listed s) ++ [mkDir nid p alias m us moved]) (zombies s) (keys s) (indexed s) (S nid)
+          build_term_map (mkState (replace_dir par' (listed s) ++ [set_items nd0 moved]) (keys s) (indexed s) (S nid)) moved
       | None =>
-          mkState (listed s ++ [mkDir nid p alias m us []]) (zombies s) (keys s) (indexed s) (S nid)
+          mkState (listed s ++ [mkDir nid p alias m us []]) (keys s) (indexed s) (S nid)
       end
   end.
 
@@ -233,7 +227,7 @@ Definition update_raw (s : state) (p : path) (m : option mode) (us : option (lis
   | None => s
   | Some d =>
       let d' := set_share d (match m with Some m' => m' | None => dmode d end) (match us with Some u => u | None => dusers d end) in
-      mkState (replace_dir d' (listed s)) (zombies s) (keys s) (indexed s) (next_id s)
+      mkState (replace_dir d' (listed s)) (keys s) (indexed s) (next_id s)
   end.
 
 Definition remove_raw (s : state) (p : path) : state :=
@@ -242,14 +236,13 @@ Definition remove_raw (s : state) (p : path) : state :=
   | Some d =>
       let rest := filter (fun e => negb (eqb_path (dpath e) p)) (listed s) in
       let rest' := match best_parent p rest None with
-                   | Some par => replace_dir (set_items par (union_eq (ditems par) (ditems d))) rest
+                   | Some par => replace_dir (set_items par (union_eq (ditems par) (map (rehome par) (ditems d)))) rest
                    | None => rest
                    end in
-      cleanup (mkState rest' (d :: zombies s) (keys s) (indexed s) (next_id s))
+      rebuild (mkState rest' (keys s) (indexed s) (next_id s))
   end.
 
-
-(* scan_directory(shared_directory, children) over the files of [disk] *)
+(* scan_directory(shared_directory, children) over the files of [disk] (os.walk reports every path once) *)
 Definition scan_file (d : dobj) (children : list dobj) (f : file) : list item :=
   let fp := fst f in
   match skipn (length (dpath d)) fp with
@@ -259,8 +252,13 @@ Definition scan_file (d : dobj) (children : list dobj) (f : file) : list item :=
       then [mkItem (did d) (dpath d) (removelast (r :: rel)) (last (r :: rel) []) (snd f)]
       else []
   end.
+Fixpoint nodup_files (seen : list path) (disk : list file) : list file :=
+  match disk with
+  | [] => []
+  | f :: r => if existsb (eqb_path (fst f)) seen then nodup_files seen r else f :: nodup_files (fst f :: seen) r
+  end.
 Definition scan_set (d : dobj) (children : list dobj) (disk : list file) : list item :=
-  flat_map (scan_file d children) disk.
+  flat_map (scan_file d children) (nodup_files [] disk).
 Definition children_of (d : dobj) (ds : list dobj) : list dobj :=
   filter (fun c => negb (eqb_path (dpath c) (dpath d)) && path_prefix (dpath d) (dpath c)) ds.
 (* items |= scanned; items -= items ^ scanned : the scanned set, keeping the old object where an equal one exists *)
@@ -272,7 +270,7 @@ Definition scan_raw (s : state) (p : path) (disk : list file) : state :=
   | None => s
   | Some d =>
       let its := reconcile (ditems d) (scan_set d (children_of d (listed s)) disk) in
-      let s1 := rc_prune (mkState (replace_dir (set_items d its) (listed s)) (zombies s) (keys s) (indexed s) (next_id s)) in
+      let s1 := prune (mkState (replace_dir (set_items d its) (listed s)) (keys s) (indexed s) (next_id s)) in
       cleanup (build_term_map s1 its)
   end.
 
@@ -289,9 +287,7 @@ Definition load_entry (s : state) (e : entry) : state :=
 Definition load_raw (s : state) (es : list entry) : state :=
   let s1 := fold_left load_entry es s in
   let keep := flat_map (fun e : entry => match find_listed (e_path e) (listed s1) with Some d => [d] | None => [] end) es in
-  let dropped := filter (fun d => negb (existsb (fun k => Nat.eqb (did k) (did d)) keep)) (listed s1) in
-  let s2 := mkState keep (dropped ++ zombies s1) [] [] (next_id s1) in
-  fold_left (fun st d => build_term_map st (ditems d)) keep s2.
+  rebuild (mkState keep (keys s1) (indexed s1) (next_id s1)).
 
 Definition step_raw (s : state) (o : op) : state :=
   match o with
@@ -331,19 +327,20 @@ Definition parse_term (q : query) (term : str) : query :=
        end.
 Definition parse (s : str) : query := fold_left parse_term (split_ws s) (mkQuery [] [] []).
 
-(* first pass of SharesManager.query: the list of term-map keys every candidate must be filed under;
-   None = one of the "optimisation" early returns *)
-Fixpoint incl_keys (ks : list str) (subs : list str) : option (list str) :=
+(* first pass of SharesManager.query: the list of constraints every candidate must satisfy; a constraint is a list
+   of term-map keys of which the item must be filed under at least one (an include word: just that word; the first
+   sub-term of a wildcard term: every key ending with it).  None = one of the "optimisation" early returns *)
+Fixpoint incl_keys (ks : list str) (subs : list str) : option (list (list str)) :=
   match subs with
   | [] => Some []
-  | u :: r => if mem_str u ks then option_map (cons u) (incl_keys ks r) else None
+  | u :: r => if mem_str u ks then option_map (cons [u]) (incl_keys ks r) else None
   end.
-Definition wild_first (ks : list str) (u0 : str) : option (list str) :=
+Definition wild_first (ks : list str) (u0 : str) : option (list (list str)) :=
   match u0 with
   | [] => Some []
-  | _ => match filter (fun k => ends_with k u0) ks with [] => None | m => Some m end
+  | _ => match filter (fun k => ends_with k u0) ks with [] => None | m => Some [m] end
   end.
-Definition wild_keys (ks : list str) (t : str) : option (list str) :=
+Definition wild_keys (ks : list str) (t : str) : option (list (list str)) :=
   match split_nw t with
   | [] => Some []
   | u0 :: r =>
@@ -352,21 +349,22 @@ Definition wild_keys (ks : list str) (t : str) : option (list str) :=
       | _, _ => None
       end
   end.
-Fixpoint collect {A} (f : A -> option (list str)) (l : list A) : option (list str) :=
+Fixpoint collect {A} (f : A -> option (list (list str))) (l : list A) : option (list (list str)) :=
   match l with
   | [] => Some []
   | x :: r => match f x, collect f r with Some a, Some b => Some (a ++ b) | _, _ => None end
   end.
-Definition prefilter_keys (ks : list str) (q : query) : option (list str) :=
+Definition prefilter_keys (ks : list str) (q : query) : option (list (list str)) :=
   match collect (fun t => incl_keys ks (words t)) (q_incl q), collect (wild_keys ks) (q_wild q) with
   | Some a, Some b => Some (a ++ b)
   | _, _ => None
   end.
 Definition filed_under (x : item) (k : str) : bool := mem_str k (item_words x).
+Definition satisfies (x : item) (alts : list str) : bool := existsb (filed_under x) alts.
 Definition prefilter (s : state) (q : query) : list item :=
   match prefilter_keys (keys s) q with
   | None => []
-  | Some kl => filter (fun x => forallb (filed_under x) kl) (indexed s)
+  | Some cl => filter (fun x => forallb (satisfies x) cl) (indexed s)
   end.
 
 (* the regular-expression pass *)
@@ -375,9 +373,9 @@ Definition matches (q : query) (x : item) : bool :=
   forallb (fun t => term_occurs false t p) (q_incl q) &&
   forallb (fun t => term_occurs true t p) (q_wild q) &&
   forallb (fun t => negb (term_occurs false t p)) (q_excl q).
-(* excluded phrases exactly as the code compares them: phrase as received, path lower-cased *)
+(* excluded phrases: case-insensitive containment (phrase and path lower-cased) *)
 Definition phrase_free (phrases : list str) (x : item) : bool :=
-  forallb (fun ph => negb (substring ph (lower_s (qpath x)))) phrases.
+  forallb (fun ph => negb (substring (lower_s ph) (lower_s (qpath x)))) phrases.
 Definition nonempty_l {A} (l : list A) : bool := match l with [] => false | _ => true end.
 Definition has_inclusion (q : query) : bool := nonempty_l (q_incl q) || nonempty_l (q_wild q).
 
@@ -390,7 +388,7 @@ Definition query_items (s : state) (q : query) (phrases : list str) (maxr : nat)
 
 (* ---------------------------------------------------------------- lock split, stats *)
 
-Definition find_obj (s : state) (i : nat) : option dobj := find (fun d => Nat.eqb (did d) i) (all_objs s).
+Definition find_obj (s : state) (i : nat) : option dobj := find (fun d => Nat.eqb (did d) i) (listed s).
 (* is_directory_locked *)
 Definition dir_locked (friends : list str) (d : dobj) (user : str) : bool :=
   match dmode d with
